@@ -40,6 +40,11 @@ class Box:
         self.clock = 1
         self.names = dict(CONCRETE)
         self.names['main'] = main_name
+        # every top-level entry of a policy directory that does not start with a dot is a policy file,
+        # whatever its name ends in (the relative sort order a < b inside d1 is kept)
+        self.names['d1/a'] = 'd1[site]/' + rng.choice(['a-second-created.yaml', 'a.yaml~', 'a-site.json.orig', 'a.bak', 'a'])
+        self.names['d1/b'] = 'd1[site]/' + rng.choice(['b-first-created.json', 'b.rpmsave', 'b.yaml.dpkg-old', 'b.rej'])
+        self.names['d2/a'] = 'd2 *?/' + rng.choice(['a.yaml', '10-site.json.orig', 'overrides.bak', 'a.txt', 'A'])
         self.dirnames = {'d1': 'd1[site]', 'd2': 'd2 *?', 'd3': 'd3'}
         for d in ('d1', 'd2'):
             os.makedirs(os.path.join(self.root, self.dirnames[d]))
